@@ -903,6 +903,11 @@ def rule_E3(repo: Repo) -> RuleResult:
         # where the path established that the group has no earlier row (clock[k] > 0 is false)
         first_row = False
         for t, pol in p.conds:
+            # `not np.isnan(clock[k])` false / `np.isnan(clock[k])` true: the group has no earlier row either
+            tt, pp = (t.operand, not pol) if isinstance(t, ast.UnaryOp) and isinstance(t.op, ast.Not) else (t, pol)
+            if isinstance(tt, ast.Call) and norm(tt.func) in ("np.isnan", "is_null") and tt.args \
+                    and isinstance(tt.args[0], ast.Subscript) and base_name(tt.args[0]) == clock and pp is True:
+                first_row = True
             if isinstance(t, ast.Compare) and len(t.ops) == 1 and isinstance(t.left, ast.Subscript) and base_name(t.left) == clock:
                 c0 = const_int(t.comparators[0])
                 if (isinstance(t.ops[0], ast.Gt) and c0 == 0 and pol is False) or \
